@@ -211,7 +211,11 @@ func analyse(cfg *Config, obs *Obs) *faultAnalysis {
 				}
 				pendP, pendE = "", ""
 			case e.Fault && path.Base(e.Path) == ".gitignore":
+				// opened by the walk itself (no extractor attempt pending): part of the traversal
 				fa.Objects = append(fa.Objects, failingObject{Root: root, Dir: path.Dir(e.Path), Gitignore: true})
+				if e.Res != "err:notexist" { // "does not exist" is indistinguishable from a directory without ignore file
+					fa.Traversal = true
+				}
 			case e.Fault:
 				fa.Objects = append(fa.Objects, failingObject{Root: root, File: e.Path})
 			}
@@ -230,6 +234,7 @@ func analyse(cfg *Config, obs *Obs) *faultAnalysis {
 					fa.Objects = append(fa.Objects, failingObject{Root: root, Path: e.Path, Ext: curE})
 				} else if path.Base(e.Path) == ".gitignore" {
 					fa.Objects = append(fa.Objects, failingObject{Root: root, Dir: path.Dir(e.Path), Gitignore: true})
+					fa.Traversal = true // the walk's own read of the ignore file
 				} else {
 					fa.Objects = append(fa.Objects, failingObject{Root: root, File: e.Path})
 				}
